@@ -419,6 +419,70 @@ theorem invnorm_of_trivial (c : Components K) (hr : c.RangeOK) (ht : c.isTrivial
       linarith [this.1, this.2]
   rw [e1, e2, e3]; ring
 
+/-! ### trivial within the tolerance of `is_trivial` -/
+
+theorem nearOne_bounds {tol : K} {r : K × K} (h : nearOne tol r = true) {x : K} (hx : r.1 ≤ x ∧ x ≤ r.2) :
+    1 - tol ≤ x ∧ x ≤ 1 + tol := by
+  simp only [nearOne, Bool.and_eq_true, Bool.not_eq_true', decide_eq_false_iff_not, not_lt] at h
+  obtain ⟨⟨⟨h1, h2⟩, h3⟩, h4⟩ := h
+  constructor <;> linarith [hx.1, hx.2]
+
+theorem prod_bounds (t fB fE fG : K) (hlo : 0 ≤ 1 - t) (eB : 1 - t ≤ fB ∧ fB ≤ 1 + t)
+    (eE : (1 - t) * (1 - t) ≤ fE ∧ fE ≤ (1 + t) * (1 + t)) (eG : 1 - t ≤ fG ∧ fG ≤ 1 + t) :
+    (1 - t) ^ 4 ≤ fB * fE * fG ∧ fB * fE * fG ≤ (1 + t) ^ 4 := by
+  have hE0 : 0 ≤ (1 - t) * (1 - t) := mul_nonneg hlo hlo
+  have hp : 0 ≤ 1 + t := le_trans (le_trans hlo eB.1) eB.2
+  constructor
+  · have : (1 - t) ^ 4 = (1 - t) * ((1 - t) * (1 - t)) * (1 - t) := by ring
+    rw [this]
+    have h1' : (1 - t) * ((1 - t) * (1 - t)) ≤ fB * fE :=
+      mul_le_mul eB.1 eE.1 hE0 (le_trans hlo eB.1)
+    exact mul_le_mul h1' eG.1 hlo (mul_nonneg (le_trans hlo eB.1) (le_trans hE0 eE.1))
+  · have : (1 + t) ^ 4 = (1 + t) * ((1 + t) * (1 + t)) * (1 + t) := by ring
+    rw [this]
+    have h1' : fB * fE ≤ (1 + t) * ((1 + t) * (1 + t)) :=
+      mul_le_mul eB.2 eE.2 (le_trans hE0 eE.1) hp
+    exact mul_le_mul h1' eG.2 (le_trans hlo eG.1) (mul_nonneg hp (mul_nonneg hp hp))
+
+theorem invnorm_within (c : Components K) (tol : K) (h0 : 0 ≤ tol) (h1 : tol ≤ 1) (hr : c.RangeOK)
+    (ht : c.isTrivial tol = true) (b : Bin) (hb : c.inFan b = true) :
+    (1 - tol) ^ 4 ≤ c.invnorm b ∧ c.invnorm b ≤ (1 + tol) ^ 4 := by
+  rw [invnorm_eq, if_pos hb]
+  simp only [Components.isTrivial, Bool.and_eq_true, Bool.or_eq_true] at ht
+  obtain ⟨⟨he, hg⟩, hB⟩ := ht
+  obtain ⟨re, rg, rB⟩ := hr
+  have hlo : 0 ≤ 1 - tol := by linarith
+  have one_in : 1 - tol ≤ (1 : K) ∧ (1 : K) ≤ 1 + tol := ⟨by linarith, by linarith⟩
+  have eB : 1 - tol ≤ (match c.block with | some B => B b | none => (1 : K)) ∧
+      (match c.block with | some B => B b | none => (1 : K)) ≤ 1 + tol := by
+    cases hc : c.block with
+    | none => exact one_in
+    | some B => exact nearOne_bounds (hB.resolve_left (by simp [hc])) (rB B hc b)
+  have eG : 1 - tol ≤ (match c.geo with | some g => g b | none => (1 : K)) ∧
+      (match c.geo with | some g => g b | none => (1 : K)) ≤ 1 + tol := by
+    cases hc : c.geo with
+    | none => exact one_in
+    | some g => exact nearOne_bounds (hg.resolve_left (by simp [hc])) (rg g hc b)
+  have eE : (1 - tol) * (1 - tol) ≤ (match c.eff with | some (ea, eb) => ea b * eb b | none => (1 : K)) ∧
+      (match c.eff with | some (ea, eb) => ea b * eb b | none => (1 : K)) ≤ (1 + tol) * (1 + tol) := by
+    cases hc : c.eff with
+    | none =>
+      constructor
+      · show (1 - tol) * (1 - tol) ≤ 1
+        nlinarith
+      · show (1 : K) ≤ (1 + tol) * (1 + tol)
+        nlinarith
+    | some p =>
+      obtain ⟨ea, eb⟩ := p
+      have hn := he.resolve_left (by simp [hc])
+      have ha := nearOne_bounds hn (re ea eb hc b).1
+      have hb' := nearOne_bounds hn (re ea eb hc b).2
+      constructor
+      · show (1 - tol) * (1 - tol) ≤ ea b * eb b
+        exact mul_le_mul ha.1 hb'.1 hlo (le_trans hlo ha.1)
+      · show ea b * eb b ≤ (1 + tol) * (1 + tol)
+        exact mul_le_mul ha.2 hb'.2 (le_trans hlo hb'.1) (by linarith)
+  exact prod_bounds tol _ _ _ hlo eB eE eG
 /-! ### attenuation -/
 
 theorem foldl_add_eq_sum (g : K × K → K) (row : List (K × K)) (acc : K) :
